@@ -168,12 +168,15 @@ pub fn run(tier: Tier, shard: Shard, stats: &mut Stats) {
     widths.extend([255, 65535]);
     let catcher = LineCatcher::new(200);
     let mut case = 0u64;
-    // {msg:...}
+    // {msg:...}, and the same through a custom key whose tracker writes the content
+    let shared: std::sync::Arc<std::sync::Mutex<String>> = Default::default();
+    for key in ["msg", "ck"] {
     for &w in &widths {
         for align in ['<', '^', '>'] {
             for truncate in [false, true] {
-                let tpl = format!("|{{msg:{}{}{}}}|", align, w, if truncate { "!" } else { "" });
-                let style = ProgressStyle::with_template(&tpl).unwrap();
+                let tpl = format!("|{{{key}:{}{}{}}}|", align, w, if truncate { "!" } else { "" });
+                let cell = shared.clone();
+                let style = ProgressStyle::with_template(&tpl).unwrap().with_key("ck", move |_: &indicatif::ProgressState, w: &mut dyn std::fmt::Write| w.write_str(&cell.lock().unwrap()).unwrap());
                 let pb = bar_on(&catcher, Some(5), style);
                 for c in &all {
                     if w > 12 && c.len() > 2 {
@@ -187,7 +190,11 @@ pub fn run(tier: Tier, shard: Shard, stats: &mut Stats) {
                     stats.transitions += 1;
                     let content = text_of(c);
                     let r = catch(|| {
-                        pb.set_message(content.clone());
+                        if key == "msg" {
+                            pb.set_message(content.clone());
+                        } else {
+                            *shared.lock().unwrap() = content.clone();
+                        }
                         frame_lines(&catcher, &pb)
                     });
                     let hist = vec![tpl.clone(), format!("{:?}", content)];
@@ -212,6 +219,7 @@ pub fn run(tier: Tier, shard: Shard, stats: &mut Stats) {
                 pb.abandon();
             }
         }
+    }
     }
     // {wide_msg}: a truncating field as wide as the rest of the line
     // (also with other template lines before and after the line that holds it: their columns are not its line's)
